@@ -309,3 +309,65 @@ pub fn is_occurrence(
         && (!anchored || ms == s)
         && occ(pats[pid], hay, ms, e, ci)
 }
+
+/// Textbook Aho-Corasick (standard semantics, unanchored): after reading the
+/// string `w` followed by byte `b`, the automaton is in the state spelled by
+/// the longest suffix of `w·b` that is a prefix of some pattern. Returns the
+/// length of that suffix.
+pub fn ac_suffix_len(pats: &[&[u8]], w: &[u8], b: u8, ci: bool) -> usize {
+    let n = w.len() + 1;
+    let at = |i: usize| -> u8 {
+        if i < w.len() {
+            w[i]
+        } else {
+            b
+        }
+    };
+    let mut k = n;
+    while k > 0 {
+        // is (w·b)[n-k..] a prefix of some pattern?
+        let mut pid = 0;
+        while pid < pats.len() {
+            if pats[pid].len() >= k {
+                let mut ok = true;
+                let mut i = 0;
+                while i < k {
+                    let (x, y) = (at(n - k + i), pats[pid][i]);
+                    let same = if ci { lower(x) == lower(y) } else { x == y };
+                    if !same {
+                        ok = false;
+                    }
+                    i += 1;
+                }
+                if ok {
+                    return k;
+                }
+            }
+            pid += 1;
+        }
+        k -= 1;
+    }
+    0
+}
+
+/// The `k`-th (0-based) pattern that is a suffix of `w`, longest first and
+/// then in supply order: the match list of the state spelled by `w`.
+pub fn nth_suffix_pattern(pats: &[&[u8]], w: &[u8], k: usize, ci: bool) -> Option<usize> {
+    let mut cnt = 0;
+    let mut len = w.len() + 1;
+    while len > 0 {
+        let l = len - 1;
+        let mut pid = 0;
+        while pid < pats.len() {
+            if pats[pid].len() == l && occ(pats[pid], w, w.len() - l, w.len(), ci) {
+                if cnt == k {
+                    return Some(pid);
+                }
+                cnt += 1;
+            }
+            pid += 1;
+        }
+        len -= 1;
+    }
+    None
+}
